@@ -18,7 +18,7 @@ from jax2onnx._compat.jax import (
 import jax.numpy as jnp
 
 from jax2onnx.converter.typing_support import LoweringContextProtocol
-from jax2onnx.ir_utils import numpy_dtype_to_ir
+from jax2onnx.converter.ir_builder import _dtype_to_ir
 from jax2onnx.plugins._post_check_onnx_graph import expect_graph as EG
 from jax2onnx.plugins.jax._autodiff_utils import register_jvp_via_jax_jvp
 from jax2onnx.plugins.jax.numpy._common import (
@@ -218,7 +218,9 @@ class JnpMeanPlugin(PrimitiveLeafPlugin):
             cast_val = ctx.builder.Cast(
                 operand_val,
                 _outputs=[ctx.fresh_name("mean_cast")],
-                to=int(numpy_dtype_to_ir(out_dtype).value),
+                to=int(
+                    _dtype_to_ir(out_dtype, ctx.builder.enable_double_precision).value
+                ),
             )
             if getattr(operand_val, "shape", None) is not None:
                 cast_val.shape = operand_val.shape
